@@ -13,6 +13,7 @@ import (
 	"net/netip"
 	"syscall"
 	"time"
+	"unsafe"
 
 	"golang.org/x/net/bpf"
 
@@ -29,6 +30,48 @@ type AScn struct {
 	// RefuseA k > 0: the kernel refuses the attach made by the k-th control call on socket A (the socket's filter is locked
 	// - SO_LOCK_FILTER - just before it, so the real setsockopt answers EPERM): the installation reports an error
 	RefuseA int `json:"refuse_a,omitempty"`
+	// DrainErrA: socket A has a pending socket error (a UDP socket on the loopback whose datagram to a closed port drew an
+	// ICMP error: the next receive answers ECONNREFUSED, not EAGAIN), so the drain read between the two attaches fails: the
+	// installation either reports that or goes on to install the intended program - it never reports success with the
+	// drop-everything program still attached
+	DrainErrA bool `json:"drain_err_a,omitempty"`
+}
+
+// errSocket returns a non-blocking UDP socket with a pending ECONNREFUSED.
+func errSocket() (int, error) {
+	probe, err := syscall.Socket(syscall.AF_INET, syscall.SOCK_DGRAM|syscall.SOCK_CLOEXEC, 0)
+	if err != nil {
+		return -1, err
+	}
+	if err := syscall.Bind(probe, &syscall.SockaddrInet4{Addr: [4]byte{127, 0, 0, 1}}); err != nil {
+		syscall.Close(probe)
+		return -1, err
+	}
+	sa, _ := syscall.Getsockname(probe)
+	port := sa.(*syscall.SockaddrInet4).Port
+	syscall.Close(probe) // nothing listens there any more
+	fd, err := syscall.Socket(syscall.AF_INET, syscall.SOCK_DGRAM|syscall.SOCK_NONBLOCK|syscall.SOCK_CLOEXEC, 0)
+	if err != nil {
+		return -1, err
+	}
+	if err := syscall.Connect(fd, &syscall.SockaddrInet4{Addr: [4]byte{127, 0, 0, 1}, Port: port}); err != nil {
+		syscall.Close(fd)
+		return -1, err
+	}
+	syscall.Write(fd, []byte{0})
+	time.Sleep(2 * time.Millisecond) // (the loopback answers at once; if no error is pending the scenario is simply uneventful)
+	return fd, nil
+}
+
+// filterLen asks the kernel how many instructions the program attached to the socket has (0 = none).
+func filterLen(fd int) int {
+	var l uint32
+	const soGetFilter = 26
+	_, _, e := syscall.Syscall6(syscall.SYS_GETSOCKOPT, uintptr(fd), uintptr(syscall.SOL_SOCKET), soGetFilter, 0, uintptr(unsafe.Pointer(&l)), 0)
+	if e != 0 {
+		return -1
+	}
+	return int(l)
 }
 
 type schedConn struct {
@@ -189,18 +232,36 @@ func runAttach(sc *AScn, prefix []int, sig []uint32) (*vsched.Exec, string, stri
 		return &vsched.Exec{}, "", ""
 	}
 	defer pb.close()
+	aFd := pa.rx
+	if sc.DrainErrA {
+		fd, err := errSocket()
+		if err != nil {
+			return &vsched.Exec{}, "", "" // no such sockets here: nothing to judge
+		}
+		defer syscall.Close(fd)
+		aFd = fd
+	}
 	var ea, eb error
 	x := vsched.Run(vsched.Config{Prefix: prefix, PrefixSig: sig}, nil, func() {
 		done := 0
 		callsA := 0
 		vsched.Go(func() {
-			ea = packets.SetBPFAndDrain(schedConn{fd: pa.rx, lockAt: sc.RefuseA, calls: &callsA}, progA)
+			ea = packets.SetBPFAndDrain(schedConn{fd: aFd, lockAt: sc.RefuseA, calls: &callsA}, progA)
 			done++
 		})
 		vsched.Go(func() { eb = packets.SetBPFAndDrain(schedConn{fd: pb.rx}, progB); done++ })
 		vsched.Block(doneW{&done, 2}, -1, "join attaches")
 	})
 	if x.Outcome != vsched.Normal {
+		return x, "", ""
+	}
+	if sc.DrainErrA {
+		if n := filterLen(aFd); ea == nil && n >= 0 && n != len(progA) {
+			return x, "failed-drain-reported-as-success", fmt.Sprintf("the drain read on socket A=%s failed with a socket error; the installation returned nil and the socket carries a program of %d instructions, the intended one has %d", sc.A, n, len(progA))
+		}
+		if eb != nil {
+			return x, "attach-error", fmt.Sprint(eb)
+		}
 		return x, "", ""
 	}
 	if sc.RefuseA > 0 {
@@ -269,6 +330,9 @@ func attachScns(tier string) []AScn {
 		for _, k := range []int{1, 2} {
 			out = append(out, AScn{A: a, B: "icmp", Bound: 0, RefuseA: k})
 		}
+	}
+	for _, a := range names {
+		out = append(out, AScn{A: a, B: "icmp", Bound: 0, DrainErrA: true})
 	}
 	return out
 }
